@@ -89,6 +89,7 @@ def run(ctx):
     sc.correspondence(ctx, recs, "cmp_final", "c05")
     sc.padding_check(ctx, recs, ("final",), 40 if ctx.quick else 400, "c05")
     sc.loglevel_check(ctx, recs, ("final",), 25 if ctx.quick else 250, "c05")
+    sc.resolve_check(ctx, recs, ("final",), 30 if ctx.quick else 300, "c05")
     check(ctx, recs)
 
 
